@@ -17,6 +17,8 @@ def g_expr(e):
     h, a = e[0], e[1:]
     if h == 'N':
         return '(ELit %s)' % g_bdd(e)
+    if h == 'R':
+        return '(ERaw %s)' % g_bdd(e)
     if h == 'tt':
         return '(ELit (build_tt %s %s%%N 0%%N))' % (g_nat_list(a[0]), int(a[1]))
     if h == 'var':
